@@ -482,6 +482,13 @@ func (e *Exec) harnessPrim(name string, args []Value) (Value, bool) {
 		sym := "in_" + sanitize(n)
 		e.declare(sym, sortBV(64))
 		e.addInput(&InputVar{Name: n, Kind: "int64", Sym: sym})
+		if false && e.relaxed && !e.opaque {
+			// (disabled: the int2bv link makes z3 slow) an SMT Int twin of the input keeps integer reasoning out of the bit-vector theory
+			tw := sym + "_i"
+			e.declare(tw, "Int")
+			e.sol.Send(fmt.Sprintf("(assert (and (<= (- 9223372036854775808) %s) (<= %s 9223372036854775807) (= %s ((_ int2bv 64) %s))))", tw, tw, sym, tw))
+			return Int{W: 64, Signed: true, Sym: sym, RI: tw}, true
+		}
 		return symInt(64, true, sym), true
 	case "vNondetFloat64":
 		n := e.strArg(args[0], "nondet name")
